@@ -24,6 +24,7 @@
 #include "scientificinfo.h"
 
 #define PLSCONVERGENCE 1e-8
+#define PLSMAXITER 10000 /* ceiling on the NIPALS passes of one latent variable */
 
 /**
  * PLS model data structure
